@@ -397,8 +397,8 @@ def c12(run):
         nseq, nops = Q(run, (1500, 40), (40000, 60))
         for sd in SEEDS(run, 3):
             R.twin_differential(run, ch, "seqcache", "twins_cache_s%d" % sd,
-                                ["twin=cache", "seed=%d" % sd, "nseq=%d" % nseq, "nops=%d" % nops],
-                                ["twin=cacheof", "seed=%d" % sd, "nseq=%d" % nseq, "nops=%d" % nops])
+                                ["twin=cache", "seed=%d" % sd, "nseq=%d" % nseq, "nops=%d" % nops, "cb7=1"],
+                                ["twin=cacheof", "seed=%d" % sd, "nseq=%d" % nseq, "nops=%d" % nops, "cb7=1"])
             R.twin_differential(run, ch, "seqmap", "twins_map_s%d" % sd,
                                 ["kind=map", "wb=0", "seed=%d" % sd, "nseq=%d" % Q(run, 20, 300), "nops=400"],
                                 ["kind=mapof", "wb=0", "seed=%d" % sd, "nseq=%d" % Q(run, 20, 300), "nops=400"])
